@@ -266,7 +266,9 @@ class Totality:
         return False
 
     def dominating_conditions(self, view, site_block):
-        """[(structural description, truth)] of every branch edge that dominates site_block."""
+        return dominating_conditions(view, site_block)
+
+    def _unused_dominating_conditions(self, view, site_block):
         out = []
         for b in view.dom.get(site_block, ()):
             t = view.blocks[b]["term"]
@@ -932,4 +934,36 @@ def fn_items_in_type(t):
     elif k == "tuple":
         for x in t["ts"]:
             out.extend(fn_items_in_type(x))
+    return out
+
+
+def dominating_conditions(view, site_block):
+    """[(structural description, truth)] of every branch edge that dominates site_block."""
+    out = []
+    for b in view.dom.get(site_block, ()):
+        t = view.blocks[b]["term"]
+        if t["t"] != "switch":
+            continue
+        d = t["discr"]
+        if not (d.get("o") in ("copy", "move") and not d["p"]):
+            continue
+        ch = view.chase(d)
+        neg = False
+        if ch[0] == "rv" and ch[1]["r"] == "un" and ch[1]["op"] == "Not":
+            ch = view.chase(ch[1]["a"])
+            neg = True
+        if ch[0] == "call":
+            descr = (ir.callee_name(ch[1]["fn"]) or "?").split("::")[-1]
+        elif ch[0] == "rv" and ch[1]["r"] == "bin":
+            descr = "%s(%s,%s)" % (ch[1]["op"], panics._named_local(view, ch[1]["a"]),
+                                   panics._named_local(view, ch[1]["b"]))
+        else:
+            continue
+        for s in view.succ.get(b, []):
+            vals = [v for v, bb in t["targets"] if bb == s]
+            truths = {bool(v) for v in vals}
+            if t["otherwise"] == s:
+                truths |= ({True, False} - {bool(v) for v, _ in t["targets"]})
+            if len(truths) == 1 and view.edge_dominates(b, s, site_block):
+                out.append((descr, truths.pop() != neg))
     return out
